@@ -102,6 +102,13 @@ var reg struct {
 	rng        uint64
 	failLimit  int
 	jitterOn   bool
+	// pendingW counts, per RWMutex, the goroutines that are inside a failing Lock() loop.
+	// sync.RWMutex blocks NEW readers as soon as a writer has announced itself; plain
+	// TryRLock loops would not (a writer never "announces" through TryLock), and a
+	// recursive read lock - reader holds RLock, writer arrives, reader takes RLock again -
+	// would go unnoticed although it deadlocks the real mutex. Readers are therefore
+	// refused while a writer is pending on the same mutex.
+	pendingW map[any]int
 }
 
 // BeginScenario resets the registry. jitterOn=false gives plain TryLock loops
@@ -117,6 +124,12 @@ func BeginScenario(seed uint64, jitterOn bool) {
 	}
 	for k := range reg.mutexIDs {
 		delete(reg.mutexIDs, k)
+	}
+	if reg.pendingW == nil {
+		reg.pendingW = map[any]int{}
+	}
+	for k := range reg.pendingW {
+		delete(reg.pendingW, k)
 	}
 	reg.progress = 0
 	reg.deadlocked = false
@@ -273,9 +286,10 @@ func mutexID(m any) int16 { // reg.mu held
 	return id
 }
 
-// verdict: every live worker is in a failing acquire loop with >= failLimit
-// consecutive failures since the last progress event, and every goroutine that
-// holds a lock is a finished worker or itself in that state. reg.mu held.
+// verdict: every live worker - and every other goroutine that is waiting for a lock -
+// is in a failing acquire loop with >= failLimit consecutive failures since the last
+// progress event, and every goroutine that holds a lock is a finished worker or itself
+// in that state. reg.mu held.
 func verdict() bool {
 	live := 0
 	for _, s := range reg.gs {
@@ -289,6 +303,12 @@ func verdict() bool {
 		if s.holds > 0 && !(s.done || stuck) {
 			return false
 		}
+		// A waiter that is not (yet) stuck may still get its lock - and a reader that is
+		// refused because of a pending writer depends on exactly such a waiter, possibly a
+		// goroutine that is not a worker (the cache's cleanup goroutine).
+		if s.waiting && !s.done && !stuck {
+			return false
+		}
 	}
 	return live > 0
 }
@@ -297,9 +317,28 @@ func acquire(m any, kind int8, try func() bool) {
 	trackedDelay()
 	g := goid()
 	spins := 0
+	announced := false // this goroutine is counted in pendingW[m]
+	unannounce := func() { // reg.mu held
+		if announced {
+			announced = false
+			if reg.pendingW[m]--; reg.pendingW[m] <= 0 {
+				delete(reg.pendingW, m)
+			}
+		}
+	}
 	for {
-		if try() {
-			reg.mu.Lock()
+		// The attempt and its bookkeeping are one step under reg.mu: were the successful
+		// TryLock outside, a goroutine descheduled between "got the lock" and "recorded it"
+		// would still look like a stuck waiter (waiting, fails >= limit, no progress since) and
+		// the others, failing against the lock it now holds, could reach a FALSE deadlock
+		// verdict (seen 6 times in one thorough run: Cache+janitor, 4-6 workers x 50 calls).
+		// TryLock never blocks, so holding reg.mu across it is harmless.
+		reg.mu.Lock()
+		if reg.pendingW == nil {
+			reg.pendingW = map[any]int{}
+		}
+		if !(kind == 1 && reg.pendingW[m] > 0) && try() {
+			unannounce()
 			s := state(g)
 			s.waiting, s.fails = false, 0
 			s.holds++
@@ -311,10 +350,16 @@ func acquire(m any, kind int8, try func() bool) {
 			reg.mu.Unlock()
 			return
 		}
-		reg.mu.Lock()
 		s := state(g)
+		if kind == 0 && !announced {
+			if _, isRW := m.(*RWMutex); isRW {
+				announced = true
+				reg.pendingW[m]++
+			}
+		}
 		if reg.deadlocked {
 			isWorker := s.worker >= 0
+			unannounce()
 			reg.mu.Unlock()
 			if isWorker {
 				panic(Deadlock)
@@ -330,6 +375,9 @@ func acquire(m any, kind int8, try func() bool) {
 		}
 		dead := reg.deadlocked
 		isWorker := s.worker >= 0
+		if dead {
+			unannounce()
+		}
 		reg.mu.Unlock()
 		if dead {
 			if isWorker {
